@@ -615,6 +615,6 @@ func main() {
 		Setup:       func(tier string) error { logrus.SetLevel(logrus.PanicLevel); return nil },
 		Run:         run,
 		CaseTimeout: 120 * time.Second,
-		Floors: map[string]int64{"requests": 1000, "addresses_judged": 500, "addresses_judged_discriminating": 300, "cap_checks": 50, "cap_checks_at_limit": 5, "strict_cases": 20, "committed_writes": 5000},
+		Floors:      map[string]int64{"requests": 1000, "addresses_judged": 500, "addresses_judged_discriminating": 300, "cap_checks": 50, "cap_checks_at_limit": 5, "strict_cases": 20, "committed_writes": 5000},
 	})
 }
